@@ -89,6 +89,27 @@ SEEDS = {
              "IN / NOT IN over a subquery whose select item is a computed non-aggregate expression (`a in (select x + 1 from s)`): the subquery side is pruned to no columns, executor build panics", ["C17", "C01", "C02"]),
     "C19b": ("C19", "src/types/interval.rs: hand-written Ord/PartialOrd by 30-day-month time span while Eq/Hash stay field-wise",
              "two INTERVAL values with equal span but different fields (1 month vs 30 days): <, =, > all false; ORDER BY/MIN/MAX and GROUP BY/DISTINCT/hash join disagree", ["C19"]),
+    # ---- fifth round (repaired tree, ten agents, third seed for most of these properties)
+    "C01c": ("C01", "src/planner/rules/order.rs analyze_order: HashJoin claims the order of its right (probe) input, like MergeJoin",
+             "disk engine, a LEFT / FULL OUTER hash join whose right table has a primary key, at least one unmatched left row, and ORDER BY <right pk> without LIMIT (the sort is removed, NULL-padded rows come last)", ["C01", "C12"]),
+    "C04c": ("C04", "src/storage/secondary/transaction.rs commit_inner: `.truncate(true)` removed from the delete-vector file's OpenOptions",
+             "a crash after a DV file was written but before the manifest append, a post-recovery DELETE on the same row-set that encodes SHORTER than the orphan, and a second recovery (stale tail read as deletions)", ["C04"]),
+    "C06c": ("C06", "src/storage/secondary/block/blob_block_iterator.rs: cached begin offset refreshed from row `cnt - 1` instead of `next_row - 1` in skip()",
+             "a plain / nullable varchar or blob block that is read, then skipped strictly inside the block, then read again (the first row after the skip is the concatenation of several strings)", ["C06"]),
+    "C07c": ("C07", "src/storage/secondary/rowset/rowset_iterator.rs: the key-range bitmap replaces the visibility map (the same site as seed C13b, found independently)",
+             "a pk table with a delete vector and a pushed-down key range whose bound cuts a batch containing a deleted row in range: deleted rows reappear, a second overlapping DELETE over-counts", ["C07", "C13"]),
+    "C08c": ("C08", "src/storage/secondary/transaction.rs: read-only transactions no longer keep their pinned Version (Option<Arc<Version>> = None for readers)",
+             "a reader that is open while a compaction or DROP removes row-sets of its snapshot and a stale pin is released (vacuum wakes): its directories are unlinked; the engine's own pin table no longer lists the reader", ["C08"]),
+    "C10c": ("C10", "src/storage/secondary/compactor.rs run: the per-table lock guard is dropped at once (`.is_some()` instead of binding the guard)",
+             "a DELETE that commits after the compactor pinned its snapshot and before the compactor commits: acknowledged, then undone by the merged row-set", ["C10", "C09"]),
+    "C11c": ("C11", "src/executor/top_n.rs: the eviction bound heap_size is clamped to 1024 together with the preallocation",
+             "ORDER BY with LIMIT/OFFSET planned as top-N with offset + limit > 1024 (or OFFSET without LIMIT) over more than 1024 rows", ["C11", "C12"]),
+    "C14c": ("C14", "src/array/ops.rs cast Float64 -> integer: explicit range check `t <= MAX as f64` then `as`",
+             "CAST(DOUBLE AS BIGINT) of exactly 2^63 (i64::MAX as f64 rounds up to it): returns 9223372036854775807 instead of an error", ["C14"]),
+    "C15c": ("C15", "src/executor/copy_from_file.rs: only the JoinError of the reader thread is handled, its own Result is dropped",
+             "COPY .. FROM whose reader fails by itself (malformed record, missing file): the statement returns Ok and the chunks read so far are committed", ["C15"]),
+    "C18c": ("C18", "src/storage/secondary/index.rs ColumnIndex::from_bytes: decodes exactly `length` entries (footer field outside the checksum), the count check is gone",
+             "a column spanning >= 2 blocks and a bit flip that LOWERS the block count in the .idx footer to a non-zero value: the trailing blocks' rows are silently missing", ["C18"]),
 }
 
 
